@@ -303,6 +303,13 @@ func resolveByFingerprint(p *Program) {
 				}
 			}
 			sort.Slice(cs, func(i, j int) bool { return cs[i].score > cs[j].score })
+			if debugRoles {
+				fmt.Printf("fingerprint: %s missing; %d candidates", name, len(cs))
+				for _, cnd := range cs {
+					fmt.Printf(" %s=%.2f", cnd.fn.Name(), cnd.score)
+				}
+				fmt.Println()
+			}
 			if len(cs) == 0 || cs[0].score < 0.55 {
 				continue
 			}
